@@ -11,12 +11,17 @@ DRIVER = "model-keys"
 PROPERTIES = {
     "C05": {
         "lean_module": "CelmaVerif.Props.C05",
+        "obligation_modules": ["CelmaVerif.Props.C05s"],
         "kind": "functional",
         "trusted": [
             "hand-written model CelmaVerif/Model/Keys.lean of ArgumentKey (argument_key.cpp), Storage::addArgument "
             "(storage.hpp) and ArgumentContainer::findArg (argument_container.cpp), tied by the correspondence run "
             "(harness/keys.cpp drives the real ArgumentKey / ArgumentContainer with real TypedArgBase objects from "
             "destination(), ASan+UBSan) on every invocation",
+            "hand-written model CelmaVerif/Model/KeysSub.lean of the handler's two argument containers "
+            "(ArgumentContainer::addArgument( obj, key, also_check) / checkKeyUnused, head of Handler::processArg), tied by "
+            "`keys addsub` / `keys word` (harness/keys.cpp: a real Handler with plain and sub-group arguments, "
+            "hfNoAbbr on and off, through Handler::evalArguments)",
             "std::string::find/substr/compare/erase/operator[] semantics as modelled (s[size()] is the NUL)",
         ],
         "assumptions": [
@@ -28,7 +33,8 @@ PROPERTIES = {
 }
 
 RULE = ("a case is one container pair (abbreviations on / off) filled by `keys add` lines and queried by `keys find` "
-        "lines; one evaluation = one line run on the real classes and on the Lean model; distinct_nontrivial = distinct "
+        "lines, and one handler whose plain arguments are the `keys add` lines and whose sub-group arguments (its second "
+        "container) are the `keys addsub` lines, queried by `keys word` lines through Handler::evalArguments; one evaluation = one line run on the real classes and on the Lean model; distinct_nontrivial = distinct "
         "(operation, abbreviation flag, table-size class, kind of lookup key, expected match kind "
         "exact/unique-prefix/ambiguous/unknown/refused/accepted, result class) tuples")
 
@@ -108,8 +114,12 @@ def shares(e, k):
 
 
 def oracle(case_lines, impl):
-    """yields (index into case_lines, expected line or None, classification)"""
+    """yields (index into case_lines, expected line or None, classification)
+    The property speaks about the keys of one handler as ONE set: `table` is the union of the plain and the
+    sub-group arguments in definition order (index = global definition index), `is_sub[j]` says in which of the
+    two containers entry j lives (only the container-level probes `keys find` / `keys findc` care)."""
     table = []      # accepted (short, long)
+    is_sub = []
     valid = True    # every add so far was understood by the oracle
     for i, op in enumerate(case_lines):
         t = op.split(" ")
@@ -117,7 +127,8 @@ def oracle(case_lines, impl):
         if not valid:
             yield i, None, ""
             continue
-        if t[:2] == ["keys", "add"] and len(t) == 3:
+        if t[:2] in (["keys", "add"], ["keys", "addsub"]) and len(t) == 3:
+            sub = t[1] == "addsub"
             k = ref_parse(unhex(t[2]))
             if k is None:
                 # a specification the oracle has no opinion on: if the implementation refused it the table is
@@ -125,19 +136,21 @@ def oracle(case_lines, impl):
                 valid = (impl[i] or "").startswith("throw")
             else:
                 if any(shares(e, k) for e in table):
-                    exp, kind = "throw invalid_argument", "refused"
+                    clash_other = any(shares(e, k) and is_sub[j] != sub for j, e in enumerate(table))
+                    exp, kind = "throw invalid_argument", ("refused-other" if clash_other else "refused")
                 else:
                     exp, kind = "ok idx=%d" % len(table), "accepted"
                     table.append(k)
+                    is_sub.append(sub)
         elif t[:2] == ["keys", "find"] and len(t) == 4 and valid:
             k = ref_parse(unhex(t[3]))
             if k is not None and not (k[0] and k[1]):
                 abbr = t[2] == "1"
-                exact = [j for j, e in enumerate(table) if shares(e, k)]
+                exact = [j for j, e in enumerate(table) if shares(e, k) and not is_sub[j]]
                 if exact:
                     exp, kind = "ok %d" % exact[0], "exact"
                 elif k[1] and abbr:
-                    c = [j for j, e in enumerate(table) if e[1].startswith(k[1])]
+                    c = [j for j, e in enumerate(table) if e[1].startswith(k[1]) and not is_sub[j]]
                     if len(c) == 1:
                         exp, kind = "ok %d" % c[0], "unique-prefix"
                     elif not c:
@@ -149,7 +162,7 @@ def oracle(case_lines, impl):
         elif t[:2] == ["keys", "findc"] and len(t) == 4 and valid:
             c = unhex(t[3])
             if c and c[0] in OKCH and c != b"-":
-                exact = [j for j, e in enumerate(table) if e[0] == c]
+                exact = [j for j, e in enumerate(table) if e[0] == c and not is_sub[j]]
                 exp, kind = ("ok %d" % exact[0], "exact") if exact else ("ok none", "unknown")
         elif t[:2] == ["keys", "word"] and len(t) == 4 and valid:
             exp, kind = word_oracle(table, t[2] == "1", unhex(t[3]))
@@ -157,7 +170,8 @@ def oracle(case_lines, impl):
 
 
 def word_oracle(table, abbr, w):
-    """what the property text demands of a key word of the command line, over the *set* of defined keys: `-c`
+    """what the property text demands of a key word of the command line, over the *set* of defined keys of the
+    handler (plain and sub-group arguments together, `table` is the union): `-c`
     selects the argument with the short key c, `--name` the argument with the long key name (of ANY length >= 1:
     `--v` is the long key v, never the short key), else with abbreviations the only argument whose long key starts
     with name (also for a name of one character), else none"""
@@ -221,7 +235,7 @@ def nontrivial_key(op, result):
         k = ref_parse(unhex(t[3])) if t[1] == "find" else (unhex(t[3]), b"")
         kk = "garbage" if k is None else ("pos" if k == (b"", b"") else "short" if not k[1] else "long%d" % min(len(k[1]), 4))
         return (t[1], t[2], kk, rc)
-    if t[1] == "add":
+    if t[1] in ("add", "addsub"):
         k = ref_parse(unhex(t[2]))
         kk = "garbage" if k is None else ("pos" if k == (b"", b"") else "short" if not k[1] else "long" if not k[0] else "both")
         return (t[1], kk, rc, unhex(t[2])[:2].count(b"-"[0]))
@@ -270,6 +284,51 @@ def exhaustive_cases(max_keys):
     return cases
 
 
+# the handler's two containers: plain arguments + sub-group arguments over a small prefix-closed pool
+SUB_POOL_SPECS = ["x", "in", "inp", "inpa", "inpb", "iq", "x,inp", "y,in"]
+
+
+def exhaustive_subgroup_cases(all_plain_orders):
+    """2 plain specifications + 1-2 sub-group specifications of the pool (clashing ones included: the definition must
+    be refused) x all definition orders of the sub-group arguments (quick: the plain ones in pool order only, their
+    order is the business of `exhaustive_cases`; thorough: 0-2 plain ones in every order) x every key word of
+    POOL_CMDWORDS x abbreviations on and off"""
+    cases = []
+    look = word_lines(POOL_CMDWORDS)
+    if all_plain_orders:
+        plains = [p for size in (0, 1, 2) for p in itertools.permutations(SUB_POOL_SPECS, size)]
+    else:
+        plains = list(itertools.combinations(SUB_POOL_SPECS, 2))
+    n = 0
+    for plain in plains:
+        for size in (1, 2):
+            for sub in itertools.permutations(SUB_POOL_SPECS, size):
+                n += 1
+                cases.append(Case("xs%d" % n, ["keys add " + hexs(s) for s in plain]
+                                  + ["keys addsub " + hexs(s) for s in sub] + look))
+    return cases
+
+
+def all_key_words(specs):
+    """every exact key word (short and long) and every proper prefix of every long key of the specifications the
+    oracle understands"""
+    words = []
+    for sp in specs:
+        k = ref_parse(sp.encode("latin-1"))
+        if k is None:
+            continue
+        if k[0]:
+            words.append("-" + k[0].decode())
+        if k[1]:
+            words += ["--" + p for p in prefixes(k[1].decode())]
+    seen, out = set(), []
+    for w in words:
+        if w not in seen:
+            seen.add(w)
+            out.append(w)
+    return out
+
+
 WORDS = ["input", "input-file", "input-dir", "in", "i-o", "x-ray", "a-", "ab", "abc", "abcd", "verbose", "version",
          "ver", "v2", "no-color", "n-", "out", "output", "o_1"]
 SHORTS = list("abiovxn12")
@@ -313,7 +372,13 @@ def random_case(rng, cid):
     rng.shuffle(words)
     shorts = rng.sample(SHORTS, 4)
     specs = [rand_spec(rng, words, shorts) for _ in range(rng.choice([1, 2, 3, 3, 4, 5, 6, 8]))]
-    lines = ["keys add " + hexs(s) for s in specs]
+    # about 40 % of the cases: the last 1-3 specifications are sub-group arguments of the same handler
+    nsub = min(rng.choice([1, 1, 2, 3]), len(specs)) if rng.random() < 0.4 else 0
+    nplain = len(specs) - nsub
+    lines = ["keys add " + hexs(s) for s in specs[:nplain]] + ["keys addsub " + hexs(s) for s in specs[nplain:]]
+    if nsub:
+        # every exact key and every proper prefix of every long key, plain and sub-group, through the real handler
+        lines += word_lines(all_key_words(specs))
     look = set()
     for w in words:
         for p in prefixes(w):
@@ -396,11 +461,29 @@ def generate(prop, tier, seed, scale=1):
              + word_lines(["--v", "-v", "--w", "-w", "--wi", "--wide"])),
         Case("r7", ["keys add " + hexs("--v")] + word_lines(["--v", "-v"])),
         Case("r8", ["keys add " + hexs("-v")] + word_lines(["--v", "-v"])),
+        # sub-group arguments (the handler's second container): an exact key wins over an abbreviation in the other
+        # container (fix 7375dcf), an abbreviation must be unique over both containers, hfNoAbbr holds for both
+        Case("r9", ["keys add " + hexs("out"), "keys addsub " + hexs("o,output")]
+             + word_lines(["--out", "--outp", "--ou", "--output", "-o"])),
+        Case("r10", ["keys add " + hexs("output"), "keys addsub " + hexs("out")]
+             + word_lines(["--out", "--outp", "--ou", "--output", "-o"])),
+        Case("r11", ["keys addsub " + hexs("archive"), "keys addsub " + hexs("arch-x")]
+             + word_lines(["--arch", "--archive", "--arch-x", "--archi", "--arch-", "--a"])),
+        Case("r12", ["keys add " + hexs("o,out"), "keys addsub " + hexs("out"), "keys addsub " + hexs("o,other"),
+                     "keys addsub " + hexs("other")]
+             + word_lines(["--out", "-o", "--other", "--ot", "--o"])),
+        Case("r13", ["keys addsub " + hexs("o,output"), "keys add " + hexs("output"), "keys add " + hexs("o"),
+                     "keys add " + hexs("o,other"), "keys add " + hexs("out")]
+             + word_lines(["--out", "--outp", "--ou", "--output", "-o", "--o"])),
     ]
     if tier == "quick":
         yield "exhaustive key sets <=3 of 17 specs over a prefix-closed pool x all orders x all lookups x abbr", exhaustive_cases(3)
+        yield ("exhaustive handlers with 2 plain + 1-2 sub-group arguments of 8 specs over a prefix-closed pool x all "
+               "sub-group orders x all key words x abbr"), exhaustive_subgroup_cases(False)
     else:
         yield "exhaustive key sets <=4 of 17 specs over a prefix-closed pool x all orders x all lookups x abbr", exhaustive_cases(4)
+        yield ("exhaustive handlers with 0-2 plain + 1-2 sub-group arguments of 8 specs over a prefix-closed pool x all "
+               "orders x all key words x abbr"), exhaustive_subgroup_cases(True)
     rng = random.Random("%s-%s" % (prop, seed))
     n = (1500 if tier == "quick" else 40000) * scale
     cases = []
